@@ -161,6 +161,8 @@ inductive Schema where
   | int
   /-- pallas `NonZeroInt` (an `i64`; decoding rejects 0) -/
   | nzint
+  /-- pallas `PositiveCoin` (a `u64`; private field, `TryFrom<u64>` and the decoder reject 0) -/
+  | posCoin
   /-- `Bytes` / `ByteVec`: definite byte string -/
   | bytes
   /-- `Hash<N>`: definite byte string of exactly `n` bytes -/
@@ -223,6 +225,8 @@ structure Custom where
   enc : Value → Option Item
   dec : Item → Option Value
   kinds : List Ty
+  /-- items that the codec re-encodes to themselves (used by `Model/SchemaCanon.lean`) -/
+  canon : Item → Bool := fun _ => false
 
 structure EnvEntry where
   name : String
@@ -286,6 +290,25 @@ def validUtf8 : Bytes → Bool
       | _ => false
     else false
 
+/-- `Decoder::skip()` walks text strings with `str_iter`, which validates UTF-8: an item can be skipped
+    (unknown map key, surplus or gap array element, `EmptyMap`) only if every text string in it is valid -/
+def chunksUtf8 : List (Head × Bytes) → Bool
+  | [] => true
+  | (_, bs) :: cs => validUtf8 bs && chunksUtf8 cs
+
+mutual
+def itemUtf8Ok : Item → Bool
+  | .atom _ => true
+  | .str h bs => if h.major = 3 then validUtf8 bs else true
+  | .strIndef m cs => if m = 3 then chunksUtf8 cs else true
+  | .seq _ xs => utf8OkList xs
+  | .seqIndef _ xs => utf8OkList xs
+  | .tag _ i => itemUtf8Ok i
+def utf8OkList : List Item → Bool
+  | [] => true
+  | x :: xs => itemUtf8Ok x && utf8OkList xs
+end
+
 /-! ## leaf codecs -/
 
 def mkUndefined : Item := .atom ⟨7, 23, []⟩
@@ -329,6 +352,15 @@ def encNzInt : Value → Option Item
 def decNzInt (it : Item) : Option Value :=
   match it.int? with
   | some i => if intInBits 64 i && decide (i ≠ 0) then some (.int i) else none
+  | none => none
+
+def encPosCoin : Value → Option Item
+  | .nat n => if 0 < n ∧ n < 2 ^ 64 then some (mkUInt n) else none
+  | _ => none
+
+def decPosCoin (it : Item) : Option Value :=
+  match it.uint? with
+  | some n => if 0 < n ∧ n < 2 ^ 64 then some (.nat n) else none
   | none => none
 
 def encBytes : Value → Option Item
@@ -484,17 +516,20 @@ def encArr (e : Schema → Value → Option Item) (trunc : Bool) : Nat → List 
   | _, _, _ => none
 
 /-- array layout read by position; missing trailing fields are `None` when optional, an
-    error otherwise; surplus elements are skipped -/
+    error otherwise; surplus and gap elements are skipped
+    (`Decoder::skip`, which needs their text strings to be valid UTF-8) -/
 def decArr (d : Schema → Item → Option Value) : Nat → List (Nat × Schema) → List Item → Option (List Value)
-  | _, [], _ => some []
+  | _, [], items => if utf8OkList items then some [] else none
   | pos, (idx, s) :: fs, items =>
-    match items.drop (idx - pos) with
-    | it :: rest =>
-      match d s it, decArr d (idx + 1) fs rest with
-      | some v, some vs => some (v :: vs)
-      | _, _ => none
-    | [] =>
-      if s.isOpt then (decArr d (idx + 1) fs []).map (fun vs => Value.none :: vs) else none
+    if utf8OkList (items.take (idx - pos)) then
+      match items.drop (idx - pos) with
+      | it :: rest =>
+        match d s it, decArr d (idx + 1) fs rest with
+        | some v, some vs => some (v :: vs)
+        | _, _ => none
+      | [] =>
+        if s.isOpt then (decArr d (idx + 1) fs []).map (fun vs => Value.none :: vs) else none
+    else none
 
 /-- map layout: one entry per non-nil field, key = index -/
 def encMapFields (e : Schema → Value → Option Item) : List (Nat × Schema) → List Value → Option (List (Item × Item))
@@ -525,7 +560,7 @@ def decMapEntries (d : Schema → Item → Option Value) (fs : List (Nat × Sche
           match d s v, decMapEntries d fs rest with
           | some x, some r => some ((idx, x) :: r)
           | _, _ => none
-        | none => decMapEntries d fs rest
+        | none => if itemUtf8Ok v then decMapEntries d fs rest else none
       else none
 
 /-- the last assignment to a field wins -/
@@ -604,7 +639,10 @@ def decEnumFlat (d : Schema → Item → Option Value) (vs : List (Nat × List (
       | some i =>
         if intInBits 64 i then
           match findVariant i 0 vs with
-          | some (pos, fs) => (decArr d 0 fs xs).map (.variant pos)
+          | some (pos, fs) =>
+            -- a variant with fields skips surplus elements (`for i in 0 .. len - 1`); a unit variant returns
+            -- at once and would leave them unread, so only `[n]` is a faithful tree reading of it
+            if fs.isEmpty && !xs.isEmpty then none else (decArr d 0 fs xs).map (.variant pos)
           | none => none
         else none
       | none => none
@@ -811,6 +849,9 @@ def encEmptyMap : Value → Option Item
   | .unit => some (mkMapFlat [])
   | _ => none
 
+/-- `EmptyMap::decode` is `d.skip()` -/
+def decEmptyMap (it : Item) : Option Value := if itemUtf8Ok it then some .unit else none
+
 def encZeroOrOne (e : Value → Option Item) : Value → Option Item
   | .none => some (mkArray [])
   | .some v => (e v).map (fun it => mkArray [it])
@@ -840,6 +881,7 @@ def enc (env : Env) : Nat → Schema → Value → Option Item
     | .sint b => encSInt b v
     | .int => encInt v
     | .nzint => encNzInt v
+    | .posCoin => encPosCoin v
     | .bytes => encBytes v
     | .hash n => encHash n v
     | .text => encText v
@@ -881,6 +923,7 @@ def dec (env : Env) : Nat → Schema → Item → Option Value
     | .sint b => decSInt b it
     | .int => decInt it
     | .nzint => decNzInt it
+    | .posCoin => decPosCoin it
     | .bytes => decBytes it
     | .hash n => decHash n it
     | .text => decText it
@@ -902,7 +945,7 @@ def dec (env : Env) : Nat → Schema → Item → Option Value
     | .kvPairs k x => decKvPairs (dec env f k) (dec env f x) it
     | .cborWrap s => decCborWrap (dec env f s) it
     | .tagWrap _ s => decTagWrap (dec env f s) it
-    | .emptyMap => some .unit
+    | .emptyMap => decEmptyMap it
     | .zeroOrOne s => decZeroOrOne (dec env f s) it
     | .any => some (.any it)
     | .ref i =>
@@ -942,6 +985,7 @@ def kinds (env : Env) : Schema → List Ty
   | .sint _ => .int :: intKinds
   | .int => .int :: intKinds
   | .nzint => .int :: intKinds
+  | .posCoin => [.u8, .u16, .u32, .u64]
   | .bytes => [.bytes]
   | .hash _ => [.bytes]
   | .text => [.string]
@@ -1014,6 +1058,7 @@ def ok (env : Env) : Nat → Schema → Bool
     | .sint b => b == 8 || b == 16 || b == 32 || b == 64
     | .int => true
     | .nzint => true
+    | .posCoin => true
     | .bytes => true
     | .hash n => decide (n < 2 ^ 64)
     | .text => true
